@@ -1,6 +1,7 @@
 import Driver.Proto
 import IpfixModel.Model.Collector
 import IpfixModel.Model.Registry
+import IpfixModel.Model.Exporter
 import Std.Data.HashMap
 namespace Driver
 open Ipfix
@@ -17,5 +18,7 @@ structure DState where
   /-- the specification's template state, advanced by `chk dec` lines (Spec.C04) -/
   spec : CState := {}
   specMode : Mode := .strict
+  bld : Option SetB := none
+  exp : ExpState := {}
 
 end Driver
